@@ -9,6 +9,7 @@ import (
 	"net"
 	"net/http"
 	"net/http/httptest"
+	"strconv"
 	"strings"
 	"sync"
 	"sync/atomic"
@@ -212,6 +213,7 @@ func newDoHServer(answer func(id int, name string, qtype int) ([]byte, int)) *do
 			return
 		}
 		w.Header().Set("content-type", "application/dns-message")
+		w.Header().Set("content-length", strconv.Itoa(len(resp))) // (net/http switches to chunked encoding for larger bodies otherwise, which the library refuses)
 		w.Write(resp)
 	}))
 	// the library makes a new HTTP client (and TCP connection) for every DNS query and leaves it idle: close idle
